@@ -15,6 +15,9 @@ from ..model import Class, calls_in, call_name, kwarg, real_body, u, walk_no_nes
 from ..nf import NF, Env, Opaque, attr, show, sym
 from ..rust import PY2RUST, RustOps
 from .c03 import r5_order_offset
+from ..rulekit import need, returns
+from ..tmpl import T, tall, thas, tmatch
+from ..paths import summaries
 
 BUILD = ("hugr.build.dfg", "hugr.build.cfg", "hugr.build.cond_loop", "hugr.build.function", "hugr.build.tracked_dfg")
 
@@ -84,15 +87,12 @@ def creation_sites(prog):
 def r1_r2_structure(ctx, rust: RustOps) -> None:
     prog = ctx.program
     DFP = rust.flags[next(iter(rust.dataflow_parents))]
-    # ---- R1a: dataflow containers: Input first, Output second
+    # ---- R1a: dataflow containers: Input first, Output second   (all on canonical bodies: hv/canon.py)
     df = prog.cls("hugr.build.dfg.DfBase")
-    io = df.methods.get("_init_io_nodes")
-    if io is None:
-        ctx.broken("anchor vanished: DfBase._init_io_nodes")
-    seq = [(op_class(prog, df.module, io, c.args[0], df), u(kwarg(c, "parent", 1))) for c in calls_in(io) if call_name(c) == "add_node"]
-    seq.sort(key=lambda x: 0)   # calls_in walks in source order already for straight-line code
+    io = ctx.cfn(f"{DF}._init_io_nodes")
     calls = sorted([c for c in calls_in(io) if call_name(c) == "add_node"], key=lambda c: (c.lineno, c.col_offset))
-    seq = [(op_class(prog, df.module, io, c.args[0], df), u(kwarg(c, "parent", 1))) for c in calls]
+    order = [c for s_ in io.body for c in calls_in(s_) if call_name(c) == "add_node"]
+    seq = [(op_class(prog, df.module, io, kwarg(c, "op", 0), df), u(kwarg(c, "parent", 1))) for c in order]
     want = [DFP["allowed_first_child"], DFP["allowed_second_child"]]
     got_tags = [rust.tags.get(PY2RUST.get(o or "", ""), "?") for o, _ in seq]
     ok = got_tags == want and all(p == "self.parent_node" for _, p in seq)
@@ -100,59 +100,62 @@ def r1_r2_structure(ctx, rust: RustOps) -> None:
               f"a dataflow container's first two children must be {want} (hugr-core validity flags); the builder creates {got_tags}", io,
               expected=str(want), found=str(got_tags), detail=str(seq))
     for name in ("__init__", "new_nested"):
-        fn = df.methods.get(name)
-        body = real_body(fn)
-        idx_io = [i for i, s in enumerate(body) if "_init_io_nodes(" in u(s)]
-        idx_parent = [i for i, s in enumerate(body) if ("Hugr(parent_op)" in u(s) or "hugr.add_node(parent_op" in u(s))]
-        others = [i for i, s in enumerate(body) if any(call_name(c) in ("add_node", "add_op", "new_nested") for c in calls_in(s)) and i not in idx_parent and i not in idx_io]
+        fn = ctx.cfn(f"{DF}.{name}")
+        body = fn.body
+        idx_io = [i for i, s_ in enumerate(body) if any(call_name(c) == "_init_io_nodes" for c in calls_in(s_))]
+        idx_parent = [i for i, s_ in enumerate(body) if thas(s_, "Hugr(L_op)") or thas(s_, "L_h.add_node(L_op, E_parent)")]
+        others = [i for i, s_ in enumerate(body) if any(call_name(c) in ("add_node", "add_op", "new_nested", "_add_node") for c in calls_in(s_)) and i not in idx_parent and i not in idx_io]
         ok = len(idx_io) == 1 and len(idx_parent) == 1 and idx_parent[0] < idx_io[0] and not [o for o in others if o < idx_io[0]]
         ctx.check(ok, "C01.R1", f"DfBase.{name}: io nodes are the first children", df.module.path, fn.lineno,
                   "Input and Output must be created right after the container node, before any other child", fn)
     # ---- R1b: CFG: entry block first, exit second
     cfg = prog.cls("hugr.build.cfg.Cfg")
-    ii = cfg.methods.get("_init_impl")
-    body = real_body(ii)
+    ii = ctx.cfn(f"{CFGQ}._init_impl")
+    iparams = [a.arg for a in ii.args.args]
     creators = []
-    for i, s in enumerate(body):
-        for c in calls_in(s):
+    for i, s_ in enumerate(ii.body):
+        for c in calls_in(s_):
             if call_name(c) == "new_nested" and u(c.func.value) == "Block":
-                creators.append((i, op_class(prog, cfg.module, ii, c.args[0], cfg), u(kwarg(c, "parent", 2))))
+                creators.append((i, op_class(prog, cfg.module, ii, kwarg(c, "parent_op", 0), cfg), u(kwarg(c, "parent", 2))))
             if call_name(c) == "add_node":
-                creators.append((i, op_class(prog, cfg.module, ii, c.args[0], cfg), u(kwarg(c, "parent", 1))))
+                creators.append((i, op_class(prog, cfg.module, ii, kwarg(c, "op", 0), cfg), u(kwarg(c, "parent", 1))))
     creators.sort()
     got_tags = [rust.tags.get(PY2RUST.get(o or "", ""), "?") for _, o, _ in creators]
     want = [rust.flags["CFG"]["allowed_first_child"], rust.flags["CFG"]["allowed_second_child"]]
-    ok = got_tags == want and all(p in ("root", "self.parent_node") for _, _, p in creators)
+    ok = got_tags == want and all(p in (iparams[2], "self.parent_node") for _, _, p in creators)
     ctx.check(ok, "C01.R1", "Cfg._init_impl: entry block first, exit block second", cfg.module.path, ii.lineno,
               f"a CFG's first two children must be {want}; the builder creates {got_tags}", ii, expected=str(want), found=str(got_tags))
     # entry block input row = the CFG's input row
     for name in ("__init__", "new_nested"):
-        fn = cfg.methods.get(name)
+        fn = ctx.cfn(f"{CFGQ}.{name}")
         cfgop = [c for c in calls_in(fn) if u(c.func) == "ops.CFG"]
         init = [c for c in calls_in(fn) if call_name(c) == "_init_impl"]
-        ok = len(cfgop) == 1 and len(init) == 1 and u(kwarg(cfgop[0], "inputs", 0)) == u(init[0].args[2])
+        ok = len(cfgop) == 1 and len(init) == 1 and kwarg(cfgop[0], "inputs", 0) is not None and kwarg(init[0], iparams[3], 2) is not None \
+            and u(kwarg(cfgop[0], "inputs", 0)) == u(kwarg(init[0], iparams[3], 2))
         ctx.check(ok, "C01.R3", f"Cfg.{name}: entry block takes the CFG's input row", cfg.module.path, fn.lineno,
                   "the entry block's inputs must be the CFG's inputs", fn)
     eb = [c for c in calls_in(ii) if u(c.func) == "ops.DataflowBlock"]
-    ctx.check(len(eb) == 1 and u(eb[0].args[0]) == ii.args.args[3].arg, "C01.R3", "Cfg._init_impl: entry block inputs", cfg.module.path, ii.lineno, "", ii)
+    ctx.check(len(eb) == 1 and kwarg(eb[0], "inputs", 0) is not None and u(kwarg(eb[0], "inputs", 0)) == iparams[3], "C01.R3", "Cfg._init_impl: entry block inputs",
+              cfg.module.path, ii.lineno, "", ii)
     # ---- R1c: Conditional: one Case per variant, in index order, with variant i's row
     cond = prog.cls("hugr.build.cond_loop.Conditional")
-    ii = cond.methods.get("_init_impl")
-    loops = [n for n in real_body(ii) if isinstance(n, ast.For)]
-    ok = len(loops) == 1 and u(loops[0].iter) == f"range({ii.args.args[3].arg})"
+    CQ = "hugr.build.cond_loop.Conditional"
+    ii = ctx.cfn(f"{CQ}._init_impl")
+    cparams = [a.arg for a in ii.args.args]
+    loops = [n for n in ii.body if isinstance(n, ast.For)]
+    ok = len(loops) == 1 and u(loops[0].iter) == f"range({cparams[3]})" and isinstance(loops[0].target, ast.Name)
     if ok:
         lp = loops[0]
         v = u(lp.target)
-        nn = [c for c in calls_in(lp) if call_name(c) == "new_nested" and u(c.func.value) == "Case"]
-        ok = len(nn) == 1 and u(nn[0].args[0]) == f"ops.Case(self.parent_op.nth_inputs({v}))" and u(nn[0].args[2]) == "self.parent_node" \
-            and any("self._case_builders.append((new_case, False))" in u(s) for s in lp.body) and not any(isinstance(x, (ast.If, ast.Continue, ast.Break)) for x in ast.walk(lp))
+        e = tall(lp.body, [f"L_c = Case.new_nested(ops.Case(self.parent_op.nth_inputs({v})), E_h, self.parent_node)", "self._case_builders.append((L_c, False))"])
+        ok = e is not None and e["E_h"] in ("self.hugr", cparams[1]) and not any(isinstance(x, (ast.If, ast.Continue, ast.Break)) for x in ast.walk(lp)) \
+            and len([c for c in calls_in(lp) if call_name(c) == "new_nested"]) == 1
     ctx.check(ok, "C01.R1", "Conditional._init_impl: one Case per variant in index order", cond.module.path, ii.lineno,
               "case i must be the i-th child and receive variant i followed by the other inputs (parent_op.nth_inputs(i))", ii)
     for name in ("__init__", "new_nested"):
-        fn = cond.methods.get(name)
-        init = [c for c in calls_in(fn) if call_name(c) == "_init_impl"]
-        ok = len(init) == 1 and u(init[0].args[2]) == "len(sum_ty.variant_rows)" and any(u(c.func) == "ops.Conditional" and [u(a) for a in c.args] == ["sum_ty", "other_inputs"] for c in calls_in(fn))
-        ctx.check(ok, "C01.R1", f"Conditional.{name}: as many cases as variants", cond.module.path, fn.lineno, "", fn)
+        fn = ctx.cfn(f"{CQ}.{name}")
+        e = tall(fn.body, ["ops.Conditional(L_sum, L_other)", "E_x._init_impl(E_h, E_root, len(L_sum.variant_rows))"])
+        ctx.check(e is not None, "C01.R1", f"Conditional.{name}: as many cases as variants", cond.module.path, fn.lineno, "", fn)
     ctx.check(rust.flags["Conditional"]["allowed_children"] == "Case", "C01.R1", "oracle: Conditional children are Cases", ctx.root / "hugr-core/src/ops/validate.rs", 1, "")
     # ---- R2: permitted parent/child pairs at every creation site
     sites = creation_sites(prog)
@@ -202,186 +205,224 @@ def r1_r2_structure(ctx, rust: RustOps) -> None:
               "add_op places its operation inside a dataflow region: it must be typed as a DataflowOp", ao, found=ann)
 
 
+DF = "hugr.build.dfg.DfBase"
+CFGQ = "hugr.build.cfg.Cfg"
+
+
+def _super_call_on_every_path(ctx, qual: str, meth: str) -> tuple[bool, str]:
+    """every non-raising path of qual performs `super().<meth>(*<its own varargs>)` exactly once"""
+    fn, _, _ = ctx.locate(qual)
+    va = fn.args.vararg.arg if fn.args.vararg else None
+    ps = [p for p in ctx.paths(qual) if p.kind != "raise"]
+    bad = []
+    for p in ps:
+        hits = p.find_effect(f"super().{meth}(*{va})") if va else []
+        if len(hits) != 1:
+            bad.append(p.describe())
+    return (bool(ps) and not bad), "; ".join(bad)[:300]
+
+
 def r3_rows(ctx) -> None:
     prog = ctx.program
-    nf = NF(prog)
-    df = prog.cls("hugr.build.dfg.DfBase")
-    io = df.methods["_init_io_nodes"]
-    src = u(io)
-    ok = "inputs = parent_op._inputs()" in src and "ops.Input(inputs), self.parent_node, len(inputs)" in src
-    ctx.check(ok, "C01.R3", "DfBase._init_io_nodes: Input row = the container's inputs", df.module.path, io.lineno,
-              "the Input node's row (and port count) must be the container op's _inputs()", io)
-    so = df.methods["set_outputs"]
-    body = [u(s) for s in real_body(so)]
-    ok = body == ["self._wire_up(self.output_node, args)", "self.parent_op._set_out_types(self._output_op().types)"]
-    ctx.check(ok, "C01.R3", "DfBase.set_outputs: Output row propagated into the container", df.module.path, so.lineno,
-              "set_outputs must wire the Output node and then give the container op exactly the Output node's row", so, found="; ".join(body))
+    R = "C01.R3"
+    need(ctx, R, f"{DF}._init_io_nodes", "DfBase._init_io_nodes: Input row = the container's inputs",
+         ["E_inputs = L_op._inputs()", "self.hugr.add_node(ops.Input(E_inputs), self.parent_node, len(E_inputs))"],
+         "the Input node's row (and port count) must be the container op's _inputs()")
+    so_ps = [p for p in ctx.paths(f"{DF}.set_outputs") if p.kind != "raise"]
+    ok = bool(so_ps)
+    for p in so_ps:
+        w = p.find_effect("self._wire_up(self.output_node, L_args)")
+        st = p.find_effect("self.parent_op._set_out_types(self._output_op().types)")
+        ok = ok and len(w) == 1 and len(st) == 1 and w[0][0] < st[0][0]
+    so = ctx.locate(f"{DF}.set_outputs")
+    ctx.check(ok, R, "DfBase.set_outputs: Output row propagated into the container", so[1].path, so[0].lineno,
+              "set_outputs must wire the Output node and then give the container op exactly the Output node's row", so[0],
+              found="; ".join(p.describe() + " " + " | ".join(p.effect_texts()) for p in so_ps)[:300])
     # every override reaches the base implementation on every path with all its wires
     for q in ("hugr.build.dfg.Dfg", "hugr.build.cfg.Block", "hugr.build.cond_loop.TailLoop", "hugr.build.cond_loop.Case", "hugr.build.dfg.Function"):
-        c = prog.cls(q)
-        m = c.methods.get("set_outputs")
-        if m is None:
-            ctx.broken(f"anchor vanished: {q}.set_outputs")
-        g = CFG(real_body(m))
-        sup = g.where(lambda s: any(call_name(x) == "set_outputs" and isinstance(x.func.value, ast.Call) and u(x.func.value.func) == "super" for x in calls_in(s)))
-        va = m.args.vararg.arg if m.args.vararg else None
-        ok = len(sup) == 1 and EXIT not in g.reachable(0, avoid=set(sup))
-        if ok:
-            call = [x for x in calls_in(g.stmt[sup[0]]) if call_name(x) == "set_outputs"][0]
-            ok = len(call.args) == 1 and isinstance(call.args[0], ast.Starred) and u(call.args[0].value) == va
-        ctx.check(ok, "C01.R3", f"{c.name}.set_outputs: base wiring on every path", c.module.path, m.lineno,
+        fn, m, c = ctx.locate(f"{q}.set_outputs")
+        ok, why = _super_call_on_every_path(ctx, f"{q}.set_outputs", "set_outputs")
+        va = fn.args.vararg.arg if fn.args.vararg else None
+        ctx.check(ok, R, f"{c.name}.set_outputs: base wiring on every path", m.path, fn.lineno,
                   f"{c.name}.set_outputs must call super().set_outputs(*{va}) on every non-raising path: otherwise the Output node is not wired or the "
-                  "container never learns its output row", m)
+                  "container never learns its output row", fn, found=why)
     # container output counts agree with the op's output count (C06 table)
-    counts = {
-        "hugr.build.dfg.Dfg": "len(outputs)",
-        "hugr.build.cfg.Block": "len(branch_type.variant_rows)",
-        "hugr.build.cond_loop.TailLoop": "len(sum_type.variant_rows[1]) + len(outputs) - 1",
-    }
-    for q, expr in counts.items():
-        c = prog.cls(q)
-        m = c.methods["set_outputs"]
-        cc = [x for x in calls_in(m) if call_name(x) == "_set_parent_output_count"]
-        ok = len(cc) == 1 and u(cc[0].args[0]) == expr
-        ctx.check(ok, "C01.R3", f"{c.name}.set_outputs: container output count", c.module.path, m.lineno,
-                  f"the container's output count must be {expr} (the length of its signature's output row)", m, found=u(cc[0].args[0]) if cc else "")
-    for q, var, port in (("hugr.build.cfg.Block", "branch_type", "branching"), ("hugr.build.cond_loop.TailLoop", "sum_type", "sum_wire")):
-        c = prog.cls(q)
-        m = c.methods["set_outputs"]
-        src = u(m)
-        ok = f"{port} = outputs[0]" in src and f"{var} = self.hugr.port_type({port}.out_port())" in src
-        ctx.check(ok, "C01.R3", f"{c.name}.set_outputs: branch sum is the first output", c.module.path, m.lineno, "", m)
-    case = prog.cls("hugr.build.cond_loop.Case").methods["set_outputs"]
-    ok = "self._parent_cond._update_outputs(self._wire_types(outputs))" in u(case)
-    ctx.check(ok, "C01.R3", "Case.set_outputs: conditional learns the case's output row", prog.cls("hugr.build.cond_loop.Case").module.path, case.lineno, "", case)
-    cond = prog.cls("hugr.build.cond_loop.Conditional")
-    uo = cond.methods["_update_outputs"]
-    src = u(uo)
-    ok = "self.parent_op._outputs = outputs" in src and "self.parent_node = self.hugr._update_node_outs(self.parent_node, len(outputs))" in src
-    ctx.check(ok, "C01.R3", "Conditional._update_outputs: row and count set together", cond.module.path, uo.lineno, "", uo)
-    cfg = prog.cls("hugr.build.cfg.Cfg")
-    be = cfg.methods["branch_exit"]
-    g = CFG(real_body(be))
-    a = g.where(lambda s: isinstance(s, ast.Assign) and u(s.targets[0]) == "self._exit_op._cfg_outputs")
-    b = g.where(lambda s: isinstance(s, ast.Assign) and u(s.targets[0]) == "self.parent_op._outputs")
-    cnt = g.where(lambda s: "_update_node_outs(self.parent_node, len(out_types))" in u(s))
-    ok = len(a) == 1 and len(b) == 1 and len(cnt) == 1 and u(g.stmt[a[0]].value) == u(g.stmt[b[0]].value) == "out_types" \
-        and EXIT not in g.reachable(a[0], avoid={b[0]}) and EXIT not in g.reachable(a[0], avoid={cnt[0]}) and a[0] not in g.reachable(b[0])
-    ctx.check(ok, "C01.R3", "Cfg.branch_exit: exit row, CFG output row and count set together", cfg.module.path, be.lineno,
-              "the first exit branch must give the same row to the exit block and to the CFG op, and update the CFG's output count, on the same path", be)
-    ok = "out_types = self._nth_outputs(src)" in u(be) and "self.hugr.add_link(src, self.exit.inp(0))" in u(be)
-    ctx.check(ok, "C01.R3", "Cfg.branch_exit: exit row = the branch's successor row", cfg.module.path, be.lineno, "", be)
-    nth = cfg.methods["_nth_outputs"]
-    ok = "block.nth_outputs(port.offset)" in u(nth) and "self.hugr._get_typed_op(port.node, ops.DataflowBlock)" in u(nth)
-    ctx.check(ok, "C01.R3", "Cfg._nth_outputs: successor i receives variant i + other outputs", cfg.module.path, nth.lineno, "", nth)
-    asu = cfg.methods["add_successor"]
-    ok = "self.add_block(*self._nth_outputs(pred))" in u(asu) and "self.branch(pred, b)" in u(asu)
-    ctx.check(ok, "C01.R3", "Cfg.add_successor: block inputs = predecessor's successor row", cfg.module.path, asu.lineno, "", asu)
-    br = cfg.methods["branch"]
-    ok = "self.hugr.add_link(src, dst.inp(0))" in u(br) and "return self.branch_exit(src)" in u(br)
-    ctx.check(ok, "C01.R3", "Cfg.branch: control edges enter a block at port 0", cfg.module.path, br.lineno, "", br)
+    need(ctx, R, "hugr.build.dfg.Dfg.set_outputs", "Dfg.set_outputs: container output count", ["self._set_parent_output_count(len(L_outputs))"],
+         "the container's output count must be len(outputs) (the length of its signature's output row)")
+    need(ctx, R, "hugr.build.cfg.Block.set_outputs", "Block.set_outputs: container output count",
+         ["L_bt = self.hugr.port_type(L_outputs[0].out_port())", "self._set_parent_output_count(len(L_bt.variant_rows))"],
+         "a block has one control output per variant of the branch sum carried by its first output")
+    need(ctx, R, "hugr.build.cond_loop.TailLoop.set_outputs", "TailLoop.set_outputs: container output count",
+         ["L_st = self.hugr.port_type(L_outputs[0].out_port())", "self._set_parent_output_count(len(L_st.variant_rows[1]) + len(L_outputs) - 1)"],
+         "a tail loop's outputs are the break variant's row followed by the rest of the body outputs")
+    need(ctx, R, "hugr.build.cond_loop.Case.set_outputs", "Case.set_outputs: conditional learns the case's output row",
+         ["self._parent_cond._update_outputs(self._wire_types(L_outputs))"])
+    # Conditional._update_outputs / Cfg.branch_exit: on the path that establishes the row, row and count are set together
+    uo = [p for p in ctx.paths("hugr.build.cond_loop.Conditional._update_outputs") if p.kind != "raise"]
+    setters = [p for p in uo if p.find_effect("self.parent_op._outputs = L_outputs")]
+    ok = bool(setters) and all(p.find_effect("self.parent_node = self.hugr._update_node_outs(self.parent_node, len(L_outputs))") and
+                               p.has_test("self.parent_op._outputs is not None", False) is not None for p in setters)
+    f_ = ctx.locate("hugr.build.cond_loop.Conditional._update_outputs")
+    ctx.check(ok, R, "Conditional._update_outputs: row and count set together", f_[1].path, f_[0].lineno,
+              "the first case to finish gives the conditional its output row and the matching output count", f_[0])
+    be = [p for p in ctx.paths(f"{CFGQ}.branch_exit") if p.kind != "raise"]
+    first = [p for p in be if p.find_effect("self._exit_op._cfg_outputs = E_row")]
+    ok = bool(first)
+    for p in first:
+        a = p.find_effect("self._exit_op._cfg_outputs = E_row")
+        env = a[0][2]
+        b = p.find_effect("self.parent_op._outputs = E_row", env)
+        c = p.find_effect("self.parent_node = self.hugr._update_node_outs(self.parent_node, len(E_row))", env)
+        ok = ok and bool(b) and bool(c) and "_nth_outputs(" in env["E_row"]
+    f_ = ctx.locate(f"{CFGQ}.branch_exit")
+    ctx.check(ok, R, "Cfg.branch_exit: exit row, CFG output row and count set together", f_[1].path, f_[0].lineno,
+              "the first exit branch must give the same row to the exit block and to the CFG op, and update the CFG's output count, on the same path", f_[0])
+    ok = bool(be) and all(p.find_effect("self.hugr.add_link(E_src, self.exit.inp(0))") for p in be) and \
+        all("self._nth_outputs(" in " ".join(p.effect_texts()) for p in be)
+    ctx.check(ok, R, "Cfg.branch_exit: exit row = the branch's successor row", f_[1].path, f_[0].lineno,
+              "every exit branch links the source to the exit block's port 0 and takes the exit row from the source's successor row", f_[0])
+    need(ctx, R, f"{CFGQ}._nth_outputs", "Cfg._nth_outputs: successor i receives variant i + other outputs",
+         ["self.hugr._get_typed_op(E_p.node, ops.DataflowBlock).nth_outputs(E_p.offset)"])
+    need(ctx, R, f"{CFGQ}.add_successor", "Cfg.add_successor: block inputs = predecessor's successor row",
+         ["L_b = self.add_block(*self._nth_outputs(L_pred))", "self.branch(L_pred, L_b)"])
+    br = [p for p in ctx.paths(f"{CFGQ}.branch")]
+    ok = bool(br) and all((p.kind == "return" and "self.branch_exit(" in p.value_text()) or p.find_effect("self.hugr.add_link(E_src, L_dst.inp(0))") for p in br)
+    f_ = ctx.locate(f"{CFGQ}.branch")
+    ctx.check(ok, R, "Cfg.branch: control edges enter a block at port 0", f_[1].path, f_[0].lineno, "", f_[0])
     # op-side setters
-    ops = prog.module("hugr.ops")
-    setters = {
-        "DFG": ["self._outputs = types"], "Case": ["self._outputs = types"], "FuncDefn": ["self._outputs = types"],
-        "DataflowBlock": ["sum_, other = tys.get_first_sum(types)", "self._sum = sum_", "self._other_outputs = other"],
-        "Output": None, "TailLoop": None,
-    }
-    for cname, want in setters.items():
-        c = ops.classes[cname]
-        if cname == "Output":
-            m = c.methods["_set_in_types"]
-            ok = [u(s) for s in real_body(m)] == ["self._types = types"]
-        elif cname == "TailLoop":
-            m = c.methods["_set_out_types"]
-            src = u(m)
-            ok = "sum_, other = tys.get_first_sum(types)" in src and "just_ins, just_outs = sum_.variant_rows" in src and "self._just_outputs = just_outs" in src \
-                and "just_ins == self.just_inputs" in src
-        else:
-            m = c.methods["_set_out_types"]
-            ok = [u(s) for s in real_body(m)] == want
-        ctx.check(ok, "C01.R3", f"hugr.ops.{cname}: row setter", ops.path, m.lineno, f"{cname} must record the row it is given in its signature fields", m)
-    gfs = prog.module("hugr.tys").functions["get_first_sum"]
-    ok = "sum_, *other = types" in u(gfs) and "return (sum_, other)" in u(gfs) and "isinstance(sum_, Sum)" in u(gfs)
-    ctx.check(ok, "C01.R3", "hugr.tys.get_first_sum", prog.module("hugr.tys").path, gfs.lineno, "", gfs)
+    for cname in ("DFG", "Case", "FuncDefn"):
+        need(ctx, R, f"hugr.ops.{cname}._set_out_types", f"hugr.ops.{cname}: row setter", ["self._outputs = L_types"],
+             f"{cname} must record the row it is given in its signature fields")
+    need(ctx, R, "hugr.ops.Output._set_in_types", "hugr.ops.Output: row setter", ["self._types = L_types"])
+    need(ctx, R, "hugr.ops.DataflowBlock._set_out_types", "hugr.ops.DataflowBlock: row setter",
+         ["L_s, L_o = tys.get_first_sum(L_types)", "self._sum = L_s", "self._other_outputs = L_o"],
+         "DataflowBlock must record the row it is given in its signature fields")
+    tl = [p for p in ctx.paths("hugr.ops.TailLoop._set_out_types") if p.kind != "raise"]
+    ok = bool(tl) and all(p.find_effect("self._just_outputs = tys.get_first_sum(L_types)[0].variant_rows[1]") and
+                          p.find_effect("assert tys.get_first_sum(L_types)[0].variant_rows[0] == self.just_inputs") for p in tl)
+    f_ = ctx.locate("hugr.ops.TailLoop._set_out_types")
+    ctx.check(ok, R, "hugr.ops.TailLoop: row setter", f_[1].path, f_[0].lineno, "TailLoop must record the break row of the body's first output sum", f_[0],
+              found=" | ".join(e for p in tl for e in p.effect_texts())[:300])
+    gfs = returns(ctx.paths("hugr.tys.get_first_sum"))
+    ok = bool(gfs) and all(p.value_text() == "(types[0], types[1:])" and p.find_effect("assert isinstance(types[0], Sum)") for p in gfs)
+    f_ = ctx.locate("hugr.tys.get_first_sum")
+    ctx.check(ok, R, "hugr.tys.get_first_sum", f_[1].path, f_[0].lineno, "", f_[0], found="; ".join(p.describe() for p in gfs))
     # _wire_up: port i gets wire i; partial ops learn their input row; port counts from the signature
-    wu = df.methods["_wire_up"]
-    src = u(wu)
-    ok = "[self._wire_up_port(node, i, p) for i, p in enumerate(ports)]" in src and "op._set_in_types(tys)" in src \
-        and "self.hugr._update_port_count(node, num_inps=len(sig.input), num_outs=len(sig.output))" in src and "sig = op.outer_signature()" in src
-    ctx.check(ok, "C01.R3", "DfBase._wire_up: wires in port order, partial ops completed, counts from the signature", df.module.path, wu.lineno, "", wu)
-    dc = prog.cls("hugr.build.dfg.Function").methods["declare_outputs"]
-    ok = "self._set_parent_output_count(len(output_types))" in u(dc) and "self.parent_op._set_out_types(output_types)" in u(dc)
-    ctx.check(ok, "C01.R3", "Function.declare_outputs", df.module.path, dc.lineno, "", dc)
+    need(ctx, R, f"{DF}._wire_up", "DfBase._wire_up: wires in port order, partial ops completed, counts from the signature",
+         ["L_tys = [self._wire_up_port(L_node, c0, c1) for c0, c1 in enumerate(L_ports)]", "E_op._set_in_types(L_tys)", "L_sig = E_op.outer_signature()",
+          "self.hugr._update_port_count(L_node, num_inps=len(L_sig.input), num_outs=len(L_sig.output))"],
+         "input port i must receive wire i, a partial op must be given the wire types, and the node's port counts must come from the completed signature")
+    need(ctx, R, "hugr.build.dfg.Function.declare_outputs", "Function.declare_outputs",
+         ["self._set_parent_output_count(len(L_t))", "self.parent_op._set_out_types(L_t)"])
     # nested containers take their input rows from the wires they are given
-    for name, frag in (("add_nested", "ops.DFG(self._wire_types(args))"), ("add_cfg", "Cfg.new_nested(self._wire_types(args), self.hugr, self.parent_node)"),
-                       ("add_tail_loop", "ops.TailLoop(just_input_types, rest_types)"), ("add_conditional", "tys.get_first_sum(self._wire_types(args))")):
-        m = df.methods[name]
-        ctx.check(frag in u(m) and "self._wire_up(" in u(m), "C01.R3", f"DfBase.{name}: container inputs = types of the given wires, then wired", df.module.path, m.lineno, "", m)
+    need(ctx, R, f"{DF}.add_nested", "DfBase.add_nested: container inputs = types of the given wires, then wired",
+         ["L_d = Dfg.new_nested(ops.DFG(self._wire_types(L_args)), self.hugr, self.parent_node)", "self._wire_up(L_d.parent_node, L_args)"])
+    need(ctx, R, f"{DF}.add_cfg", "DfBase.add_cfg: container inputs = types of the given wires, then wired",
+         ["L_c = Cfg.new_nested(self._wire_types(L_args), self.hugr, self.parent_node)", "self._wire_up(L_c.parent_node, L_args)"])
+    need(ctx, R, f"{DF}.add_tail_loop", "DfBase.add_tail_loop: container inputs = types of the given wires, then wired",
+         ["L_t = TailLoop.new_nested(ops.TailLoop(E_ji, E_rest), self.hugr, self.parent_node)", "self._wire_up(L_t.parent_node, (*L_just, *L_rest))"])
+    e = tall(ctx.cfn(f"{DF}.add_tail_loop").body, ["ops.TailLoop(E_ji, E_rest)", "self._wire_up(L_t.parent_node, (*L_just, *L_rest))"])
+    if e is not None:
+        body = ctx.cfn(f"{DF}.add_tail_loop").body
+        def val(x):
+            d = [s.value for s in body if isinstance(s, ast.Assign) and u(s.targets[0]) == x]
+            return u(d[0]) if d else x
+        ok = val(e["E_ji"]) == f"self._wire_types({e['L_just']})" and val(e["E_rest"]) == f"self._wire_types({e['L_rest']})"
+        f_ = ctx.locate(f"{DF}.add_tail_loop")
+        ctx.check(ok, R, "DfBase.add_tail_loop: rows = types of the two wire groups", f_[1].path, f_[0].lineno, "", f_[0])
+    need(ctx, R, f"{DF}.add_conditional", "DfBase.add_conditional: container inputs = types of the given wires, then wired",
+         ["L_s, L_o = tys.get_first_sum(self._wire_types(L_all))", "L_c = Conditional.new_nested(L_s, L_o, self.hugr, self.parent_node)", "self._wire_up(L_c.parent_node, L_all)"])
 
 
 def r4_order_edges(ctx) -> None:
-    prog = ctx.program
-    df = prog.cls("hugr.build.dfg.DfBase")
-    m = df.methods["_wire_up_port"]
-    g = CFG(real_body(m))
-    links = g.where(lambda s: "self.hugr.add_link(" in u(s))
-    orders = g.where(lambda s: "add_state_order(" in u(s) or "add_order_link(" in u(s))
-    tests = [n for n, s in g.stmt.items() if g.kind.get(n) == "test" and u(s) in ("node_ancestor != node", "node != node_ancestor")]
-    ok = len(links) == 1 and len(orders) == 1 and len(tests) == 1
-    if ok:
-        t = tests[0]
-        tsucc = [x for x in g.succ[t] if g.label.get((t, x)) == "T"][0]
-        # from the non-local branch every path to the link passes the order edge
-        ok = links[0] not in g.reachable(tsucc, avoid={orders[0]}) or tsucc == orders[0]
-        ok = ok and orders[0] in g.reachable(tsucc)
-        oc = [c for c in calls_in(g.stmt[orders[0]]) if call_name(c) in ("add_state_order", "add_order_link")][0]
-        ok = ok and [u(a) for a in oc.args] == ["src.node", "node_ancestor"]
-    ctx.check(ok, "C01.R4", "DfBase._wire_up_port: order edge accompanies every non-local value edge", df.module.path, m.lineno,
-              "when the source is not a sibling of the target (node_ancestor != node) a state-order edge from the source node to the target's "
-              "ancestor must be added before the value edge", m)
-    anc = [s for s in real_body(m) if isinstance(s, ast.Assign) and u(s.targets[0]) == "node_ancestor"]
-    ok = len(anc) == 1 and u(anc[0].value) == "_ancestral_sibling(self.hugr, src.node, node)"
-    ctx.check(ok, "C01.R4", "DfBase._wire_up_port: ancestor = sibling-ancestor of the target", df.module.path, m.lineno, "", m)
-    ok = len(links) == 1 and "add_link(src, node.inp(offset))" in u(g.stmt[links[0]])
-    ctx.check(ok, "C01.R4", "DfBase._wire_up_port: value edge to the requested port", df.module.path, m.lineno, "", m)
-    aso = df.methods["add_state_order"]
-    ok = u(real_body(aso)[-1]) == "self.hugr.add_order_link(src, dst)"
-    ctx.check(ok, "C01.R4", "DfBase.add_state_order", df.module.path, aso.lineno, "", aso)
+    R = "C01.R4"
+    q = f"{DF}._wire_up_port"
+    fn, m, _ = ctx.locate(q)
+    ps = [p for p in ctx.paths(q) if p.kind != "raise"]
+    linked = [(p, p.find_effect("self.hugr.add_link(E_src, L_node.inp(L_offset))")) for p in ps]
+    linked = [(p, h) for p, h in linked if h]
+    ok = bool(linked)
+    nonlocal_seen = False
+    why = ""
+    for p, h in linked:
+        env = h[0][2]
+        anc = f"_ancestral_sibling(self.hugr, {env['E_src']}.node, {env['L_node']})"
+        local = p.has_test(f"{anc} == {env['L_node']}")
+        if local is None:
+            ok, why = False, "a value edge is added on a path that never compares the target's sibling-ancestor with the target: " + p.describe()
+            continue
+        taken = [k for t, k in p.tests if u(t) == f"{anc} == {env['L_node']}"][0]
+        if not taken:
+            nonlocal_seen = True
+            o = p.find_effect(f"self.add_state_order({env['E_src']}.node, {anc})") or p.find_effect(f"self.hugr.add_order_link({env['E_src']}.node, {anc})")
+            if not o or o[0][0] > h[0][0]:
+                ok, why = False, "non-local path without the order edge (source node -> target's ancestor) before the value edge: " + " | ".join(p.effect_texts())
+        if len(h) != 1:
+            ok, why = False, "more than one value edge on a path"
+    ctx.check(ok and nonlocal_seen, R, "DfBase._wire_up_port: order edge accompanies every non-local value edge", m.path, fn.lineno,
+              "when the source is not a sibling of the target (its sibling-ancestor differs from the target) a state-order edge from the source node to "
+              "the target's ancestor must be added before the value edge. " + why, fn)
+    need(ctx, R, q, "DfBase._wire_up_port: ancestor = sibling-ancestor of the target", ["_ancestral_sibling(self.hugr, E_src.node, L_node)", "self.hugr.add_link(E_src, L_node.inp(L_off))"])
+    need(ctx, R, q, "DfBase._wire_up_port: value edge to the requested port", ["self.hugr.add_link(L_src, L_node.inp(L_offset))", "L_src = L_p.out_port()"])
+    aso = returns(ctx.paths(f"{DF}.add_state_order")) + [p for p in ctx.paths(f"{DF}.add_state_order") if p.kind == "fall"]
+    f_ = ctx.locate(f"{DF}.add_state_order")
+    ok = bool(aso) and all(p.find_effect("self.hugr.add_order_link(L_src, L_dst)") for p in aso)
+    ctx.check(ok, R, "DfBase.add_state_order", f_[1].path, f_[0].lineno, "", f_[0])
     # Block: the only link without an order edge is the dominator-edge fallback
-    blk = prog.cls("hugr.build.cfg.Block").methods["_wire_up_port"]
-    ok = "super()._wire_up_port(node, offset, p)" in u(blk)
-    ctx.check(ok, "C01.R4", "Block._wire_up_port: ordinary wiring first", prog.cls("hugr.build.cfg.Block").module.path, blk.lineno, "", blk)
+    need(ctx, R, "hugr.build.cfg.Block._wire_up_port", "Block._wire_up_port: ordinary wiring first", ["super()._wire_up_port(L_node, L_offset, L_p)"])
     # _ancestral_sibling returns the ancestor of tgt whose parent is src's parent
-    fn = prog.module("hugr.build.dfg").functions.get("_ancestral_sibling")
-    src = u(fn)
-    ok = "src_parent = h[src].parent" in src and "if tgt_parent == src_parent:\n            return tgt" in src.replace("\n    ", "\n    ") or ("tgt_parent == src_parent" in src and "return tgt" in src)
-    ok = ok and "tgt = tgt_parent" in src and "(tgt_parent := h[tgt].parent) is not None" in src
-    ctx.check(ok, "C01.R4", "_ancestral_sibling: climbs from the target until the parent is the source's parent", prog.module("hugr.build.dfg").path, fn.lineno, "", fn)
+    fn, m, _ = ctx.locate("hugr.build.dfg._ancestral_sibling")
+    cf = ctx.cfn("hugr.build.dfg._ancestral_sibling")
+    loops = [n for n in ast.walk(cf) if isinstance(n, ast.While)]
+    ok = len(loops) == 1
+    if ok:
+        lp = loops[0]
+        lps = summaries(lp.body)
+        env = tmatch(lp.test, T("(L_tp := L_h[L_tgt].parent) is not None"))
+        ok = env is not None
+        if ok:
+            tp, h, tgt = env["L_tp"], env["L_h"], env["L_tgt"]
+            src = [a.arg for a in fn.args.args if a.arg not in (h, tgt)]
+            ok = len(src) == 1
+        if ok:
+            same = f"{tp} == {h}[{src[0]}].parent"
+            found = [p for p in lps if p.kind == "return" and p.value_text() == tgt]
+            ok = bool(found) and all(any(u(t) in (same, f"{h}[{src[0]}].parent == {tp}") and k for t, k in p.tests) for p in found)
+            climb = [p for p in lps if p.kind in ("fall", "continue")]
+            ok = ok and bool(climb) and all(p.env.get(tgt) is not None and u(p.env[tgt]) == tp for p in climb)
+    ctx.check(ok, R, "_ancestral_sibling: climbs from the target until the parent is the source's parent", m.path, fn.lineno,
+              "the walk returns the ancestor of the target whose parent is the source's parent, climbing one parent per iteration", fn)
 
 
 def r6_function_boundary(ctx, rule="C01.R6") -> None:
-    m = ctx.program.module("hugr.build.dfg")
-    fn = m.functions.get("_ancestral_sibling")
-    if fn is None:
-        ctx.broken("anchor vanished: _ancestral_sibling")
-    loops = [n for n in ast.walk(fn) if isinstance(n, ast.While)]
+    q = "hugr.build.dfg._ancestral_sibling"
+    fn, m, _ = ctx.locate(q)
+    cf = ctx.cfn(q)
+    loops = [n for n in ast.walk(cf) if isinstance(n, ast.While)]
     if len(loops) != 1:
         ctx.broken("_ancestral_sibling: climbing loop not found")
     lp = loops[0]
-    climb = [i for i, s in enumerate(lp.body) if isinstance(s, ast.Assign) and u(s.targets[0]) == "tgt"]
-    guards = [i for i, s in enumerate(lp.body) if isinstance(s, ast.If) and "FuncDefn" in u(s.test) and "isinstance(" in u(s.test) and ".op" in u(s.test)
-              and any(isinstance(x, ast.Return) and u(x.value) == "None" for x in s.body)]
-    sib = [i for i, s in enumerate(lp.body) if isinstance(s, ast.If) and "src_parent" in u(s.test) and any(isinstance(x, ast.Return) and u(x.value) == "tgt" for x in s.body)]
-    ok = len(climb) == 1 and len(guards) == 1 and len(sib) == 1 and sib[0] < guards[0] < climb[0]
-    if ok:
-        g = lp.body[guards[0]]
-        ok = "tgt_parent" in u(g.test)      # the node being climbed *past* is the function
+    env = tmatch(lp.test, T("(L_tp := L_h[L_tgt].parent) is not None"))
+    if env is None:
+        ctx.broken("_ancestral_sibling: loop header `(parent := h[tgt].parent) is not None` not found")
+    tp, h, tgt = env["L_tp"], env["L_h"], env["L_tgt"]
+    lps = summaries(lp.body)
+
+    def func_test(p):
+        for t, k in p.tests:
+            e = tmatch(t, T(f"isinstance({h}[{tp}].op, E_cls)"))
+            if e is not None and "FuncDefn" in e["E_cls"]:
+                return k
+        return None
+    climb = [p for p in lps if p.kind in ("fall", "continue") and p.env.get(tgt) is not None and u(p.env[tgt]) == tp]
+    found = [p for p in lps if p.kind == "return" and p.value_text() == tgt]
+    stop = [p for p in lps if p.kind == "return" and p.value_text() == "None" and func_test(p) is True]
+    ok = bool(climb) and all(func_test(p) is False for p in climb) and bool(stop) and bool(found) and all(func_test(p) is None for p in found)
     ctx.check(ok, rule, "_ancestral_sibling: the search does not leave a function definition", m.path, lp.lineno,
               "the ancestor walk climbs through a FuncDefn: a value wire from outside a function into its body is accepted and an order edge is added "
               "to the function node, but the validator forbids value edges into a function body (ValueEdgeIntoFunc). The walk must stop "
-              "(return None -> NoSiblingAncestor) when the parent it would climb past is a FuncDefn", lp,
-              detail="sibling test, then function-boundary test, then climb")
+              "(return None -> NoSiblingAncestor) when the parent it would climb past is a FuncDefn, and only after the sibling test", fn,
+              detail="sibling test, then function-boundary test, then climb", found="; ".join(p.describe() for p in lps)[:300])
 
 
 def run(ctx) -> None:
